@@ -17,6 +17,7 @@ import engine_gen
 
 import dawgie.context
 import dawgie.pl.dag
+import dawgie.pl.schedule
 import dawgie.util
 import pydot
 
@@ -59,6 +60,12 @@ def dump_tree(roots, with_anc):
             d['fac'] = f.__name__ if f is not None else None
             a = n.get('alg')
             d['alg'] = a.name() if a is not None else None
+            # what the scheduler derives from the node's algorithm object
+            d['asp'] = dawgie.pl.schedule._is_asp(n) if f is not None else None
+            d['ins'] = [dawgie.util.vref_as_name(v) for v in
+                        dawgie.util.as_vref(dawgie.pl.schedule._priors(a))]
+            d['outs'] = ['.'.join([n.tag, sv.name(), k])
+                         for sv in a.state_vectors() for k in sv]
         nodes[n.tag] = d
     return {'roots': [r.tag for r in roots], 'nodes': nodes}
 
